@@ -1,13 +1,18 @@
 SPECIFICATION Spec
 CONSTANTS
   Kind = "mps"
-  Impl = "asis"
+  Smp = "asis"
+  SumSamples = FALSE
+  ExpSamples = FALSE
   OptImpl = "fixed"
   Ctor = "model"
   N = 2
   Chans = 1
   Temps = {"any"}
-  Acts = {"temp", "hard", "gumbel", "disable", "mode", "fwd", "alpha", "summary", "export"}
+  Acts = {"hard", "gumbel", "mode", "fwd", "alpha", "load", "summary", "export"}
+  Writes = {"copy", "data", "optim"}
+  Ckpts = {"soft"}
+  Moves = "gen"
   InitAlpha = "ctor"
   AllowKF = FALSE
 INVARIANT TypeOK
@@ -20,4 +25,4 @@ INVARIANT ExportIsArgmax
 INVARIANT ReportIsExport
 PROPERTY DisabledKeeps
 PROPERTY ThetaOnlyBySampling
-PROPERTY AlphaOnlyBySetAlpha
+PROPERTY AlphaOnlyByWrites
